@@ -67,4 +67,12 @@ def parseRowCells (row : List Char) : List (List Char) :=
   (splitComma ((beforeParen row).filter (fun c => c != '(' && c != ')'))).map strip
 
 
+/-! ## the shared file as characters: appended rows vs rows written at a remembered position -/
+
+/-- `O_APPEND` (mode `'a'`): the operating system puts the whole buffer at the *current* end of the file, whoever else wrote in between -/
+def appendWrite (file row : List Char) : List Char := file ++ row
+
+/-- a positioned write (mode `'r+'` after reading to the end): the buffer goes where the end of the file WAS when this worker looked -/
+def writeAt (file : List Char) (pos : Nat) (row : List Char) : List Char := file.take pos ++ row ++ file.drop (pos + row.length)
+
 end GeoVerif.MC
